@@ -7,6 +7,7 @@ import P2.Drv.C05
 import P2.Drv.C04
 import P2.Drv.C16
 import P2.Drv.C07
+import P2.Drv.C03
 /- p2driver: one request per line (`<prop> <op> <nat args…>`), one answer per line. -/
 open P2.Drv
 
@@ -25,6 +26,7 @@ def dispatch (line : String) : String :=
         else if prop = "c04" then C04.handle op ns
         else if prop = "c16" then C16.handle op ns
         else if prop = "c07" then C07.handle op ns
+        else if prop = "c03" || prop = "c01" || prop = "c02" || prop = "c08" then C03.handle op ns
         else none
       r.getD "BAD-OP"
   | _ => "BAD-LINE"
